@@ -16,7 +16,7 @@ faults, by running the stdlib tokenizer/parser on the content otherwise) and (b)
 identical to scanning them alone, no findings from skipped files, scores aligned, JSON report produced and
 consistent)."""
 import benv  # noqa: F401
-import ast, base64, builtins, contextlib, errno, functools, hashlib, io, json, linecache, logging, os, subprocess, sys, tokenize
+import ast, base64, tempfile, builtins, contextlib, errno, functools, hashlib, io, json, linecache, logging, os, subprocess, sys, tokenize
 
 import common as C
 
@@ -1142,6 +1142,75 @@ def deep_neighbours(res, scratch):
             _sys.setrecursionlimit(limit0)
 
 
+def cli_end_to_end(res, scratch, thorough):
+    """The same clauses through the command-line tool (cli/main.py sits between the scan and the report): N healthy files plus one faulty file, N in {0, 2} — with N = 0
+    no target is scanned successfully —, a content fault or an open() failure that needs no patching, -f json / txt / yaml written with -o.  The run ends with exit status
+    0 or 1, the report exists and parses, every target appears exactly once (as a metrics block or in the skipped list with a reason), exit 1 iff the report lists a
+    finding.  (Seeded change C04-m15 left main() with exit 2 and no report when no file could be scanned and one of them had a syntax error.)"""
+    import json as _json
+    kinds = [(k, v) for k, v in CONTENT_FAULTS.items() if not isinstance(v, dict)] + [("deep_unary_memoryerror", CONTENT_FAULTS["deep_unary_memoryerror"])]
+    naturals = ["ENOENT", "DANGLING"]
+    combos = []
+    for n in (0, 2):
+        for k, v in kinds:
+            combos.append((n, k, v if isinstance(v, dict) else b64(v), None))
+        for nat in naturals:
+            combos.append((n, nat, b64(FAULTY_BODY), nat))
+    # two faulty files and nothing else (an unparsable file next to a missing one)
+    combos.append((0, "syntax+missing", b64(CONTENT_FAULTS["syntax_error"]), "EXTRA_MISSING"))
+    if not thorough:
+        combos = [c for i, c in enumerate(combos) if c[0] == 0 or i % 3 == 0]
+    for n, kind, spec, nat in combos:
+        root = tempfile.mkdtemp(prefix="cli_", dir=scratch.root)
+        targets = []
+        fpath = os.path.join(root, "00_faulty.py")
+        if nat == "ENOENT":
+            pass
+        elif nat == "DANGLING":
+            os.symlink(os.path.join(root, "nowhere.py"), fpath)
+        else:
+            open(fpath, "wb").write(materialise(spec))
+        targets.append(fpath)
+        if nat == "EXTRA_MISSING":
+            targets.append(os.path.join(root, "01_missing.py"))
+        for i in range(n):
+            hp = os.path.join(root, "%02d_healthy.py" % (i + 1))
+            open(hp, "wb").write(HEALTHY[(3 * i + len(kind)) % len(HEALTHY)])
+            targets.append(hp)
+        for fmt in (("json", "txt", "yaml") if thorough else ("json", "txt")):
+            outp = os.path.join(root, "report." + fmt)
+            r = C.run_cli(["-f", fmt, "-o", outp] + targets)          # not -q: a quiet run without findings writes no text report by design
+            res.case(("cli-e2e", kind, n, fmt), True)
+            res.count("cli-end-to-end:" + fmt)
+            text = open(outp, encoding="utf-8", errors="replace").read() if os.path.exists(outp) else ""
+            replay = {"targets": [os.path.basename(t) for t in targets], "fault": kind, "healthy_files": n, "format": fmt, "exit": r["exit"], "exc": r["exc"],
+                      "faulty_source_b64": spec if isinstance(spec, dict) and "b64" in spec else str(spec)[:80], "report_bytes": len(text), "stderr_tail": r["err"][-300:]}
+            if r["exc"] is not None or r["exit"] not in (0, 1) or not text:
+                res.violation("the command-line run did not end with a report (exit status 0/1 and a non-empty report file)", replay)
+                continue
+            if fmt != "json":
+                continue
+            try:
+                data = _json.loads(text)
+            except Exception:
+                res.violation("the JSON report of the command-line run does not parse", replay)
+                continue
+            blocks = [k for k in data["metrics"] if k != "_totals"]
+            skipped = [e["filename"] for e in data["errors"]]
+            # skipped = listed in `errors` (once); otherwise scanned = exactly one metrics block (a file that was opened and then skipped keeps its block)
+            def once(t):
+                names = (t, "./" + t)
+                k = sum(skipped.count(x) for x in names)
+                return k == 1 or (k == 0 and sum(blocks.count(x) for x in names) == 1)
+            bad = [t for t in targets if not once(t)]
+            noreason = [e for e in data["errors"] if not e.get("reason")]
+            if bad or noreason:
+                res.violation("a target of the command-line run is not accounted for exactly once (scanned, or skipped with a reason)",
+                              dict(replay, not_once=[os.path.basename(b) for b in bad], metrics_blocks=[os.path.basename(b) for b in blocks], skipped=data["errors"]))
+            if r["exit"] != (1 if data["results"] else 0):
+                res.violation("exit status of the command-line run does not go with its report", dict(replay, findings=len(data["results"])))
+
+
 # ----------------------------------------------------------------------------- entry point
 def run(res, ctx):
     import warnings
@@ -1194,6 +1263,7 @@ def _run(res, ctx):
         # ---- (0) directory targets next to explicitly named files
         deep_neighbours(res, scratch)
         mixed_target_sets(res, scratch)
+        cli_end_to_end(res, scratch, thorough)
         # ---- (1) fault enumeration
         for label, scn in enumeration(thorough):
             ok, obs = run_in_process(res, drv, scratch, scn, label)
